@@ -41,15 +41,13 @@ func RegistPullStreamFactory(f PullStreamFactory) {
 
 // Regist 注册流
 func Regist(s *Stream) {
-	// 获取同 path 的现有流
-	oldSI, ok := streams.Load(s.path)
+	verifhook.Point("media.regist.loaded", s)
+	// 原子地换入新流并取出同 path 的现有流：
+	// 分开的 Load/Store 会让两个同时注册的流中的一个既查不到也不会被关闭
+	oldSI, ok := streams.Swap(s.path, s)
 	if s == oldSI { // 如果是同一个源
 		return
 	}
-	verifhook.Point("media.regist.loaded", s)
-
-	// 设置新流
-	streams.Store(s.path, s)
 
 	// 如果存在旧流
 	if ok {
@@ -64,13 +62,8 @@ func Regist(s *Stream) {
 
 // Unregist 取消注册
 func Unregist(s *Stream) {
-	si, ok := streams.Load(s.path)
-	if ok {
-		s2 := si.(*Stream)
-		if s2 == s {
-			streams.Delete(s.path)
-		}
-	}
+	// 仅当注册表中仍是该流时才删除(原子比较删除)，被替换掉的旧流不能删掉它的后继
+	streams.CompareAndDelete(s.path, s)
 	s.Close()
 }
 
